@@ -357,8 +357,19 @@ def assemble(tmpl, repo=None, flip=False):
         chunks.append(text)
     asm.text = "".join(chunks)
     # assumption scan (every run)
-    for n, ln in enumerate(asm.text.split("\n"), 1):
+    all_lines = asm.text.split("\n")
+    for n, ln in enumerate(all_lines, 1):
         if re.search(r"external_body|assume_specification|\bassume\s*\(|\badmit\s*\(|external_type_specification|verifier::external\b|uninterp spec", ln):
             if not ln.strip().startswith("//"):
-                asm.assumptions.append("%s:%d: %s" % (tmpl.unit, n, ln.strip()[:160]))
+                txt = ln.strip()
+                if txt.startswith("#["):
+                    # an attribute: report the item it is attached to (next non-attribute line) and its contract
+                    k = n
+                    while k < len(all_lines) and all_lines[k].strip().startswith("#["):
+                        k += 1
+                    if k < len(all_lines):
+                        txt += " " + all_lines[k].strip()
+                        if k + 1 < len(all_lines) and re.match(r"\s*(requires|ensures)", all_lines[k + 1]):
+                            txt += " " + all_lines[k + 1].strip()
+                asm.assumptions.append("%s:%d: %s" % (tmpl.unit, n, txt[:260]))
     return asm
